@@ -463,6 +463,7 @@ func checkC10(w *World, r *Report) {
 	r.Rule("R10.4", "fixed-size records filled exactly", 2)
 	r.Rule("R10.5", "name-carrying records go through PrepareHostname", 3)
 	r.Rule("R10.6", "private record type registered = emitted", 1)
+	r.Rule("R10.8", "reassembly strips the domain by length, never by character set", 1)
 	r.Rule("R10.7", "tag + chunk fits the record type's rdata limit", 3)
 
 	pairLayouts(w, r, "R10.1", "Response")
@@ -686,6 +687,35 @@ func c10Records(w *World, r *Report) {
 		}
 		r.Check(wi.Chunk > 0 && wi.TagLen+wi.Chunk <= limit, "R10.7", key, w.Pos(wi.Fn.Pos()), fmt.Sprintf("tag %d + chunk %d <= %d", wi.TagLen, wi.Chunk, limit),
 			fmt.Sprintf("tag %d + chunk %d exceeds the %d-octet limit of a %s %s: such a record cannot be packed", wi.TagLen, wi.Chunk, limit, name, mapStr(name == "TXT", "character-string")+mapStr(name != "TXT", "rdata")))
+	}
+	// R10.8: payload-carrying names are never trimmed with a cutset function
+	{
+		seen := map[*ssa.Function]bool{}
+		var bad []string
+		nfun := 0
+		var walk func(f *ssa.Function, d int)
+		walk = func(f *ssa.Function, d int) {
+			if f == nil || seen[f] || d > 4 || !inModule(f) {
+				return
+			}
+			seen[f] = true
+			nfun++
+			for _, c := range callsIn(f) {
+				cal := sCallee(c)
+				if cal != nil && cal.Pkg() != nil && (cal.Pkg().Path() == "strings" || cal.Pkg().Path() == "bytes") {
+					switch cal.Name() {
+					case "Trim", "TrimLeft", "TrimRight", "TrimFunc", "TrimLeftFunc", "TrimRightFunc", "TrimSpace":
+						bad = append(bad, fmt.Sprintf("%s: %s.%s removes every trailing/leading character of a SET, not a suffix: payload characters that also occur in the domain are eaten and a shorter payload is decoded without an error", w.Pos(c.Pos()), cal.Pkg().Name(), cal.Name()))
+					}
+				}
+				if sc := c.Common().StaticCallee(); sc != nil {
+					walk(sc, d+1)
+				}
+			}
+		}
+		walk(unwrap, 0)
+		sort.Strings(bad)
+		r.Check(len(bad) == 0, "R10.8", "func:util.UnwrapDnsResponse|no-cutset-trim", w.Pos(unwrap.Pos()), fmt.Sprintf("%d function(s) in the reassembly cone, none trims payload by character set", nfun), strings.Join(bad, "; "))
 	}
 	// R10.5
 	for _, name := range names {
